@@ -62,10 +62,12 @@ Fail(s) == [s EXCEPT !.ok = FALSE]
 
 AddDoc(doc, text) == IF doc = NoDoc THEN <<text>> ELSE <<doc[1] \o "\n" \o text>>
 
+MaxClassNesting == 255
 OpenClass(s, k, args) ==
     LET n == Len(args)
         parent == IF k = 0 THEN <<>> ELSE <<s.path[k]>>
     IN IF n < 1 \/ n > 3 THEN Fail(s)
+       ELSE IF k > MaxClassNesting THEN Fail(s)            \* a class line k levels in is read by the k-th nested call of parse_class
        ELSE LET src0 == args[1]
                 hasDst == ~(n = 1 \/ (n = 2 /\ IsMod(args[2])))
                 src == IF parent = <<>> THEN src0 ELSE parent[1].psrc \o "$" \o src0
